@@ -34,7 +34,7 @@ CLANG = ['clang++-14', '-std=c++20', '-S', '-emit-llvm', '-O0', '-fno-discard-va
 CACHE_DIR = os.environ.get('VERIF_CACHE_DIR', '/var/tmp/verif_cache')
 try: CBMC_VERSION = subprocess.run(['cbmc', '--version'], capture_output=True, text=True).stdout.strip()
 except Exception: CBMC_VERSION = '?'
-def heavy_slot(mem_gb, n_slots=int(os.environ.get('VERIF_HEAVY_SLOTS', '2'))):
+def heavy_slot(mem_gb, n_slots=int(os.environ.get('VERIF_HEAVY_SLOTS', '3'))):
     """jobs allowed 16 GB or more run at most n_slots at a time: take one of n_slots lock files (flock, released when the handle is closed)"""
     if not mem_gb or mem_gb < 16: return None
     import fcntl
